@@ -20,14 +20,18 @@ Definition lexError : Z := -1.
 Record sm := {
   sm_token : Z;
   sm_state : Z;
+  sm_consumed : bool;          (* a character of the current token has been consumed *)
+  sm_accum : bool;             (* text of an action-less fragment is pending *)
   sm_mode : nat;               (* index into _lexerModes; Go keeps the slice itself, nil = mode 0 *)
   sm_stack : list nat;         (* modeStack, top first *)
 }.
 
-Definition sm_init : sm := {| sm_token := 0; sm_state := 0; sm_mode := O; sm_stack := [] |}.
+Definition sm_init : sm :=
+  {| sm_token := 0; sm_state := 0; sm_consumed := false; sm_accum := false; sm_mode := O; sm_stack := [] |}.
 
 Definition sm_reset (l : sm) : sm :=
-  {| sm_token := sm_token l; sm_state := 0; sm_mode := O; sm_stack := sm_stack l |}.
+  {| sm_token := sm_token l; sm_state := 0; sm_consumed := false; sm_accum := false;
+     sm_mode := O; sm_stack := sm_stack l |}.
 
 Section Lexer.
 Variable modes : list (list Z).     (* _lexerModes *)
@@ -71,24 +75,28 @@ Fixpoint run_actions (fuel : nat) (mode : list Z) (i e : Z) (l : sm) : ares :=
         if ty =? 1 then
           if (param <? 0) || (Z.of_nat (length modes) <=? param) then ACrash
           else run_actions f mode (i + 2) e
-                 {| sm_token := sm_token l; sm_state := sm_state l;
-                    sm_mode := Z.to_nat param; sm_stack := sm_mode l :: sm_stack l |}
+                 {| sm_token := sm_token l; sm_state := sm_state l; sm_consumed := sm_consumed l;
+                    sm_accum := sm_accum l; sm_mode := Z.to_nat param; sm_stack := sm_mode l :: sm_stack l |}
         else if ty =? 2 then
           match sm_stack l with
           | [] => AReturn lexError l
           | m :: st =>
             run_actions f mode (i + 2) e
-              {| sm_token := sm_token l; sm_state := sm_state l; sm_mode := m; sm_stack := st |}
+              {| sm_token := sm_token l; sm_state := sm_state l; sm_consumed := sm_consumed l;
+                 sm_accum := sm_accum l; sm_mode := m; sm_stack := st |}
           end
         else if ty =? 3 then
           AReturn lexAccept
-            {| sm_token := param; sm_state := 0; sm_mode := sm_mode l; sm_stack := sm_stack l |}
+            {| sm_token := param; sm_state := 0; sm_consumed := false; sm_accum := false;
+               sm_mode := sm_mode l; sm_stack := sm_stack l |}
         else if ty =? 4 then
           AReturn lexDiscard
-            {| sm_token := sm_token l; sm_state := 0; sm_mode := sm_mode l; sm_stack := sm_stack l |}
+            {| sm_token := sm_token l; sm_state := 0; sm_consumed := false; sm_accum := false;
+               sm_mode := sm_mode l; sm_stack := sm_stack l |}
         else if ty =? 5 then
           AReturn lexTryAgain
-            {| sm_token := sm_token l; sm_state := 0; sm_mode := sm_mode l; sm_stack := sm_stack l |}
+            {| sm_token := sm_token l; sm_state := 0; sm_consumed := false; sm_accum := true;
+               sm_mode := sm_mode l; sm_stack := sm_stack l |}
         else run_actions f mode (i + 2) e l
       | _, _ => ACrash
       end
@@ -119,13 +127,17 @@ Definition push_rune (l : sm) (r : Z) : option (Z * sm) :=
           | None => None
           | Some (Some s) =>
             Some (lexConsume,
-                  {| sm_token := sm_token l; sm_state := s; sm_mode := sm_mode l; sm_stack := sm_stack l |})
+                  {| sm_token := sm_token l; sm_state := s; sm_consumed := true; sm_accum := sm_accum l;
+                     sm_mode := sm_mode l; sm_stack := sm_stack l |})
           | Some None =>
-            match run_actions (S (Z.to_nat count)) mode (i2 + goto_n * 3) e l with
+            (* at a token boundary an empty match is not a token: the actions are skipped *)
+            match (if negb (sm_consumed l) then AFall l
+                   else run_actions (S (Z.to_nat count)) mode (i2 + goto_n * 3) e l) with
             | ACrash => None
             | AReturn code l' => Some (code, l')
             | AFall l' =>
-              if (sm_state l' =? 0) && (r =? -1) then Some (lexEOF, l') else Some (lexError, l')
+              if negb (sm_consumed l') && (r =? -1) && negb (sm_accum l')
+              then Some (lexEOF, l') else Some (lexError, l')
             end
           end
         | _, _ => None
